@@ -105,12 +105,15 @@ def setBytes (c : Creator) (lo hi : Nat) (a : Arg) : Outcome (SetRes × Creator)
   | .bytes b => do let d ← copyInto "data[a..b].copy_from_slice" c.data lo hi b; okD c d
   | _ => badCall
 
-/-- One setter call on the creator of the command with payload type `ty`. -/
-def Creator.set (cph : Cipher) (ty : String) (c : Creator) (setter : String) (a : Arg) : Outcome (SetRes × Creator) :=
-  match ty, setter with
-  | "LinkCheckAnsPayload", "set_margin" => setRaw c 1 a
-  | "LinkCheckAnsPayload", "set_gateway_count" => setRaw c 2 a
-  | "LinkADRReqPayload", "set_data_rate" =>
+def setLinkCheckAns (c : Creator) (setter : String) (a : Arg) : Outcome (SetRes × Creator) :=
+  match setter with
+  | "set_margin" => setRaw c 1 a
+  | "set_gateway_count" => setRaw c 2 a
+  | _ => badCall
+
+def setLinkADRReq (c : Creator) (setter : String) (a : Arg) : Outcome (SetRes × Creator) :=
+  match setter with
+  | "set_data_rate" =>
     match a with
     | .n v =>
       if v > 0x0f then refuse c "InvalidDataRate"
@@ -119,7 +122,7 @@ def Creator.set (cph : Cipher) (ty : String) (c : Creator) (setter : String) (a 
         let d ← modByte "data[1] |= data_rate << 4" d 1 (· ||| ((v <<< 4) % 256))
         okD c d
     | _ => badCall
-  | "LinkADRReqPayload", "set_tx_power" =>
+  | "set_tx_power" =>
     match a with
     | .n v =>
       if v > 0x0f then refuse c "InvalidTxPower"
@@ -128,7 +131,7 @@ def Creator.set (cph : Cipher) (ty : String) (c : Creator) (setter : String) (a 
         let d ← modByte "data[1] |= tx_power & 0x0f" d 1 (· ||| (v &&& 0x0f))
         okD c d
     | _ => badCall
-  | "LinkADRReqPayload", "set_channel_mask" =>
+  | "set_channel_mask" =>
     match a with
     | .bytes b => do
       let m0 ← index "converted.as_ref()[0]" b 0
@@ -137,18 +140,38 @@ def Creator.set (cph : Cipher) (ty : String) (c : Creator) (setter : String) (a 
       let d ← setByte "data[3] = .." d 3 m1
       okD c d
     | _ => badCall
-  | "LinkADRReqPayload", "set_redundancy" => setRaw c 4 a
-  | "LinkADRAnsPayload", "set_channel_mask_ack" => setFlag c 0 a
-  | "LinkADRAnsPayload", "set_data_rate_ack" => setFlag c 1 a
-  | "LinkADRAnsPayload", "set_tx_power_ack" => setFlag c 2 a
-  | "DutyCycleReqPayload", "set_max_duty_cycle" => setLowNibbleChecked c "MaxDutyCycleOutOfRange" a
-  | "RXParamSetupReqPayload", "set_dl_settings" => setRaw c 1 a
-  | "RXParamSetupReqPayload", "set_frequency" => setBytes c 2 5 a
-  | "RXParamSetupAnsPayload", "set_channel_ack" => setFlag c 0 a
-  | "RXParamSetupAnsPayload", "set_rx2_data_rate_ack" => setFlag c 1 a
-  | "RXParamSetupAnsPayload", "set_rx1_data_rate_offset_ack" => setFlag c 2 a
-  | "DevStatusAnsPayload", "set_battery" => setRaw c 1 a
-  | "DevStatusAnsPayload", "set_margin" =>
+  | "set_redundancy" => setRaw c 4 a
+  | _ => badCall
+
+def setLinkADRAns (c : Creator) (setter : String) (a : Arg) : Outcome (SetRes × Creator) :=
+  match setter with
+  | "set_channel_mask_ack" => setFlag c 0 a
+  | "set_data_rate_ack" => setFlag c 1 a
+  | "set_tx_power_ack" => setFlag c 2 a
+  | _ => badCall
+
+def setDutyCycleReq (c : Creator) (setter : String) (a : Arg) : Outcome (SetRes × Creator) :=
+  match setter with
+  | "set_max_duty_cycle" => setLowNibbleChecked c "MaxDutyCycleOutOfRange" a
+  | _ => badCall
+
+def setRXParamSetupReq (c : Creator) (setter : String) (a : Arg) : Outcome (SetRes × Creator) :=
+  match setter with
+  | "set_dl_settings" => setRaw c 1 a
+  | "set_frequency" => setBytes c 2 5 a
+  | _ => badCall
+
+def setRXParamSetupAns (c : Creator) (setter : String) (a : Arg) : Outcome (SetRes × Creator) :=
+  match setter with
+  | "set_channel_ack" => setFlag c 0 a
+  | "set_rx2_data_rate_ack" => setFlag c 1 a
+  | "set_rx1_data_rate_offset_ack" => setFlag c 2 a
+  | _ => badCall
+
+def setDevStatusAns (c : Creator) (setter : String) (a : Arg) : Outcome (SetRes × Creator) :=
+  match setter with
+  | "set_battery" => setRaw c 1 a
+  | "set_margin" =>
     match a with
     | .i m =>
       if ¬ (-32 ≤ m ∧ m ≤ 31) then refuse c "MarginOutOfRange"
@@ -157,27 +180,55 @@ def Creator.set (cph : Cipher) (ty : String) (c : Creator) (setter : String) (a 
         let d ← setByte "data[2] = .." c.data 2 ((Int.toNat ((m * 4) % 256)) >>> 2)
         okD c d
     | _ => badCall
-  | "NewChannelReqPayload", "set_channel_index" => setRaw c 1 a
-  | "NewChannelReqPayload", "set_frequency" => setBytes c 2 5 a
-  | "NewChannelReqPayload", "set_data_rate_range" => setRaw c 5 a
-  | "NewChannelAnsPayload", "set_channel_frequency_ack" => setFlag c 0 a
-  | "NewChannelAnsPayload", "set_data_rate_range_ack" => setFlag c 1 a
-  | "RXTimingSetupReqPayload", "set_delay" => setLowNibbleChecked c "DelayOutOfRange" a
-  | "TXParamSetupReqPayload", "set_downlink_dwell_time" => setFlag c 5 a
-  | "TXParamSetupReqPayload", "set_uplink_dwell_time" => setFlag c 4 a
-  | "TXParamSetupReqPayload", "set_max_eirp" => setLowNibbleChecked c "MaxEirpOutOfRange" a
-  | "DlChannelReqPayload", "set_channel_index" => setRaw c 1 a
-  | "DlChannelReqPayload", "set_frequency" => setBytes c 2 5 a
-  | "DlChannelAnsPayload", "set_channel_frequency_ack" => setFlag c 0 a
-  | "DlChannelAnsPayload", "set_uplink_frequency_exists_ack" => setFlag c 1 a
-  | "DeviceTimeAnsPayload", "set_seconds" =>
+  | _ => badCall
+
+def setNewChannelReq (c : Creator) (setter : String) (a : Arg) : Outcome (SetRes × Creator) :=
+  match setter with
+  | "set_channel_index" => setRaw c 1 a
+  | "set_frequency" => setBytes c 2 5 a
+  | "set_data_rate_range" => setRaw c 5 a
+  | _ => badCall
+
+def setNewChannelAns (c : Creator) (setter : String) (a : Arg) : Outcome (SetRes × Creator) :=
+  match setter with
+  | "set_channel_frequency_ack" => setFlag c 0 a
+  | "set_data_rate_range_ack" => setFlag c 1 a
+  | _ => badCall
+
+def setRXTimingSetupReq (c : Creator) (setter : String) (a : Arg) : Outcome (SetRes × Creator) :=
+  match setter with
+  | "set_delay" => setLowNibbleChecked c "DelayOutOfRange" a
+  | _ => badCall
+
+def setTXParamSetupReq (c : Creator) (setter : String) (a : Arg) : Outcome (SetRes × Creator) :=
+  match setter with
+  | "set_downlink_dwell_time" => setFlag c 5 a
+  | "set_uplink_dwell_time" => setFlag c 4 a
+  | "set_max_eirp" => setLowNibbleChecked c "MaxEirpOutOfRange" a
+  | _ => badCall
+
+def setDlChannelReq (c : Creator) (setter : String) (a : Arg) : Outcome (SetRes × Creator) :=
+  match setter with
+  | "set_channel_index" => setRaw c 1 a
+  | "set_frequency" => setBytes c 2 5 a
+  | _ => badCall
+
+def setDlChannelAns (c : Creator) (setter : String) (a : Arg) : Outcome (SetRes × Creator) :=
+  match setter with
+  | "set_channel_frequency_ack" => setFlag c 0 a
+  | "set_uplink_frequency_exists_ack" => setFlag c 1 a
+  | _ => badCall
+
+def setDeviceTimeAns (c : Creator) (setter : String) (a : Arg) : Outcome (SetRes × Creator) :=
+  match setter with
+  | "set_seconds" =>
     match a with
     | .n v => do
       -- self.data[1..5].copy_from_slice(&seconds.to_le_bytes())
       let d ← copyInto "data[1..5].copy_from_slice" c.data 1 5 (toLeBytes 4 v)
       okD c d
     | _ => badCall
-  | "DeviceTimeAnsPayload", "set_nano_seconds" =>
+  | "set_nano_seconds" =>
     match a with
     | .n v =>
       if v > 1000000000 then refuse c "NanoSecondsOutOfRange"
@@ -186,15 +237,26 @@ def Creator.set (cph : Cipher) (ty : String) (c : Creator) (setter : String) (a 
         let d ← setByte "data[5] = .." c.data 5 ((v / 3906250) % 256)
         okD c d
     | _ => badCall
-  -- certification.rs
-  | "DutVersionsAnsPayload", "set_versions_raw" => setBytes c 1 13 a
-  | "RxAppCntAnsPayload", "set_rx_app_cnt" =>
+  | _ => badCall
+
+def setDutVersionsAns (c : Creator) (setter : String) (a : Arg) : Outcome (SetRes × Creator) :=
+  match setter with
+  | "set_versions_raw" => setBytes c 1 13 a
+  | _ => badCall
+
+def setRxAppCntAns (c : Creator) (setter : String) (a : Arg) : Outcome (SetRes × Creator) :=
+  match setter with
+  | "set_rx_app_cnt" =>
     match a with
     | .n v => do
       let d ← copyInto "data[1..=2].copy_from_slice" c.data 1 3 (toLeBytes 2 v)
       okD c d
     | _ => badCall
-  | "EchoIncPayloadAnsPayload", "payload" =>
+  | _ => badCall
+
+def setEchoIncPayloadAns (c : Creator) (setter : String) (a : Arg) : Outcome (SetRes × Creator) :=
+  match setter with
+  | "payload" =>
     match a with
     | .bytes b => do
       -- `let data = &data[..data.len().min(max_len())]`; dst = src.wrapping_add(1); payload_len = data.len()
@@ -202,25 +264,36 @@ def Creator.set (cph : Cipher) (ty : String) (c : Creator) (setter : String) (a 
       let d ← copyInto "payload: self.data[1..=data.len()]" c.data 1 (1 + src.length) (src.map (fun x => (x + 1) % 256))
       .ok (.ok, { data := d, count := src.length })
     | _ => badCall
-  -- multicast
-  | "PackageVersionAnsPayload", "package_identifier" => setRaw c 1 a
-  | "PackageVersionAnsPayload", "package_version" => setRaw c 2 a
-  | "McGroupStatusReqPayload", "req_group_mask" =>
+  | _ => badCall
+
+def setPackageVersionAns (c : Creator) (setter : String) (a : Arg) : Outcome (SetRes × Creator) :=
+  match setter with
+  | "package_identifier" => setRaw c 1 a
+  | "package_version" => setRaw c 2 a
+  | _ => badCall
+
+def setMcGroupStatusReq (c : Creator) (setter : String) (a : Arg) : Outcome (SetRes × Creator) :=
+  match setter with
+  | "req_group_mask" =>
     match a with
     | .n v => do
       let d ← modByte "data[1] &= 0b11110000" c.data 1 (· &&& 0b11110000)
       let d ← modByte "data[1] |= mask & 0b1111" d 1 (· ||| (v &&& 0b1111))
       okD c d
     | _ => badCall
-  | "McGroupStatusReqPayload", "req_group" =>
+  | "req_group" =>
     match a with
     | .n v => do
       let d ← modByte "data[1] |= 1 << (req_group & 0b11)" c.data 1 (· ||| (1 <<< (v &&& 0b11)))
       okD c d
     | _ => badCall
-  | "McGroupSetupReqPayload", "mc_group_id_header" => setRaw c 1 a
-  | "McGroupSetupReqPayload", "mc_addr" => setBytes c 2 6 a
-  | "McGroupSetupReqPayload", "mc_key" =>
+  | _ => badCall
+
+def setMcGroupSetupReq (cph : Cipher) (c : Creator) (setter : String) (a : Arg) : Outcome (SetRes × Creator) :=
+  match setter with
+  | "mc_group_id_header" => setRaw c 1 a
+  | "mc_addr" => setBytes c 2 6 a
+  | "mc_key" =>
     match a with
     | .bytes k => do
       -- block.copy_from_slice(mc_key.as_ref()); crypto.decrypt_block(block)
@@ -230,50 +303,66 @@ def Creator.set (cph : Cipher) (ty : String) (c : Creator) (setter : String) (a 
       let d ← copyInto "mc_key: decrypt_block in place" d 6 22 w
       okD c d
     | _ => badCall
-  | "McGroupSetupReqPayload", "min_mc_fcount" =>
+  | "min_mc_fcount" =>
     match a with
     | .n v => do let d ← copyInto "data[22..26].copy_from_slice" c.data 22 26 (toLeBytes 4 v); okD c d
     | _ => badCall
-  | "McGroupSetupReqPayload", "max_mc_fcount" =>
+  | "max_mc_fcount" =>
     match a with
     | .n v => do let d ← copyInto "data[26..30].copy_from_slice" c.data 26 30 (toLeBytes 4 v); okD c d
     | _ => badCall
-  | "McGroupSetupAnsPayload", "mc_group_id_header" =>
+  | _ => badCall
+
+def setMcGroupSetupAns (c : Creator) (setter : String) (a : Arg) : Outcome (SetRes × Creator) :=
+  match setter with
+  | "mc_group_id_header" =>
     match a with
     | .n v => do
       let d ← modByte "data[1] &= 0b1111_1100" c.data 1 (· &&& 0b11111100)
       let d ← modByte "data[1] |= v & 0b11" d 1 (· ||| (v &&& 0b11))
       okD c d
     | _ => badCall
-  | "McGroupDeleteReqPayload", "mc_group_id_header" =>
+  | _ => badCall
+
+def setMcGroupDeleteReq (c : Creator) (setter : String) (a : Arg) : Outcome (SetRes × Creator) :=
+  match setter with
+  | "mc_group_id_header" =>
     match a with
     | .n v => do
       let d ← modByte "data[1] &= 0b1111_1100" c.data 1 (· &&& 0b11111100)
       let d ← modByte "data[1] |= v & 0b11" d 1 (· ||| (v &&& 0b11))
       okD c d
     | _ => badCall
-  | "McGroupDeleteAnsPayload", "mc_group_id_header" =>
+  | _ => badCall
+
+def setMcGroupDeleteAns (c : Creator) (setter : String) (a : Arg) : Outcome (SetRes × Creator) :=
+  match setter with
+  | "mc_group_id_header" =>
     match a with
     | .n v => do
       let d ← modByte "data[1] &= 0b1111_1100" c.data 1 (· &&& 0b11111100)
       let d ← modByte "data[1] |= v & 0b11" d 1 (· ||| (v &&& 0b11))
       okD c d
     | _ => badCall
-  | "McGroupDeleteAnsPayload", "mc_group_undefined" =>
+  | "mc_group_undefined" =>
     match a with
     | .n v => do
       let d ← if v != 0 then modByte "data[1] |= 0b100" c.data 1 (· ||| 0b100)
                else modByte "data[1] &= 0b1111_1011" c.data 1 (· &&& 0b11111011)
       okD c d
     | _ => badCall
-  | "McGroupStatusAnsPayload", "nb_total_groups" =>
+  | _ => badCall
+
+def setMcGroupStatusAns (c : Creator) (setter : String) (a : Arg) : Outcome (SetRes × Creator) :=
+  match setter with
+  | "nb_total_groups" =>
     match a with
     | .n v => do
       let d ← modByte "data[1] &= 0b1111" c.data 1 (· &&& 0b1111)
       let d ← modByte "data[1] |= (v & 0b111) << 4" d 1 (· ||| (((v &&& 0b111) <<< 4) % 256))
       okD c d
     | _ => badCall
-  | "McGroupStatusAnsPayload", "push" =>
+  | "push" =>
     match a with
     | .item id addr => do
       let st ← index "push: self.data[1]" c.data 1
@@ -287,7 +376,36 @@ def Creator.set (cph : Cipher) (ty : String) (c : Creator) (setter : String) (a 
         let d ← copyInto "push: self.data[offset + 1..offset + 5].copy_from_slice" d (off + 1) (off + 5) addr
         .ok (.ok, { data := d, count := c.count + 1 })
     | _ => badCall
-  | _, _ => badCall
+  | _ => badCall
+
+/-- One setter call on the creator of the command with payload type `ty`. -/
+def Creator.set (cph : Cipher) (ty : String) (c : Creator) (setter : String) (a : Arg) : Outcome (SetRes × Creator) :=
+  match ty with
+  | "LinkCheckAnsPayload" => setLinkCheckAns c setter a
+  | "LinkADRReqPayload" => setLinkADRReq c setter a
+  | "LinkADRAnsPayload" => setLinkADRAns c setter a
+  | "DutyCycleReqPayload" => setDutyCycleReq c setter a
+  | "RXParamSetupReqPayload" => setRXParamSetupReq c setter a
+  | "RXParamSetupAnsPayload" => setRXParamSetupAns c setter a
+  | "DevStatusAnsPayload" => setDevStatusAns c setter a
+  | "NewChannelReqPayload" => setNewChannelReq c setter a
+  | "NewChannelAnsPayload" => setNewChannelAns c setter a
+  | "RXTimingSetupReqPayload" => setRXTimingSetupReq c setter a
+  | "TXParamSetupReqPayload" => setTXParamSetupReq c setter a
+  | "DlChannelReqPayload" => setDlChannelReq c setter a
+  | "DlChannelAnsPayload" => setDlChannelAns c setter a
+  | "DeviceTimeAnsPayload" => setDeviceTimeAns c setter a
+  | "DutVersionsAnsPayload" => setDutVersionsAns c setter a
+  | "RxAppCntAnsPayload" => setRxAppCntAns c setter a
+  | "EchoIncPayloadAnsPayload" => setEchoIncPayloadAns c setter a
+  | "PackageVersionAnsPayload" => setPackageVersionAns c setter a
+  | "McGroupStatusReqPayload" => setMcGroupStatusReq c setter a
+  | "McGroupSetupReqPayload" => setMcGroupSetupReq cph c setter a
+  | "McGroupSetupAnsPayload" => setMcGroupSetupAns c setter a
+  | "McGroupDeleteReqPayload" => setMcGroupDeleteReq c setter a
+  | "McGroupDeleteAnsPayload" => setMcGroupDeleteAns c setter a
+  | "McGroupStatusAnsPayload" => setMcGroupStatusAns c setter a
+  | _ => badCall
 
 /-- a fresh creator, a sequence of setter calls, `build()` -/
 def buildWith (cph : Cipher) (e : Entry) (calls : List (String × Arg)) : Outcome (List SetRes × Bytes) := do
